@@ -24,6 +24,9 @@ class C02(Prop):
                     continue
             if n <= 5 and m <= 3:
                 yield dict(case, mode="enumerate")
+            elif case["family"] == "long_chain":      # too large to enumerate: exact comparison with the proved-optimal model + renumbering
+                pr = list(range(n)); rng.shuffle(pr); ph = list(range(m)); rng.shuffle(ph)
+                yield dict(case, mode="renumber", pr=pr, ph=ph)
         N = 250 if tier == "quick" else 5000
         for i in range(N):
             n = rng.randint(2, 5); m = rng.randint(2, 3); pn = rng.choice([0, 0.2])
@@ -68,6 +71,9 @@ class C02(Prop):
             return ("no_result", "GaleShapley.scf failed on a valid instance: %s %s" % (obs["status"], obs.get("err")))
         p0 = self.pairs0(case, obs)
         if case.get("mode") == "renumber":
+            bad = G.check_stable(case, p0)       # the optimal stable matching is, first of all, a stable matching
+            if bad:
+                return bad
             o2 = obs["renumbered"]
             if o2["status"] != "ok":
                 return ("no_result", "renumbered instance failed")
